@@ -17,7 +17,6 @@
 package jsonproto
 
 import (
-	"bytes"
 	"encoding/binary"
 	"io"
 	"strconv"
@@ -68,6 +67,23 @@ var (
 	msg8 = []byte(`"}`)
 )
 
+// appendJSONString appends b to dst, escaped as the content of a JSON string:
+// the quote, the backslash and the control characters cannot appear raw.
+func appendJSONString(dst, b []byte) []byte {
+	const hex = "0123456789abcdef"
+	for _, c := range b {
+		switch {
+		case c == '"' || c == '\\':
+			dst = append(dst, '\\', c)
+		case c < 0x20:
+			dst = append(dst, '\\', 'u', '0', '0', hex[c>>4], hex[c&0xf])
+		default:
+			dst = append(dst, c)
+		}
+	}
+	return dst
+}
+
 // Pack writes the Message into the connection.
 // NOTE: Make sure to write only once or there will be package contamination!
 func (j *jsonproto) Pack(m erpc.Message) error {
@@ -93,7 +109,7 @@ func (j *jsonproto) Pack(m erpc.Message) error {
 	bb.Write(msg6)
 	bb.WriteString(strconv.FormatInt(int64(m.BodyCodec()), 10))
 	bb.Write(msg7)
-	bb.Write(bytes.Replace(bodyBytes, []byte{'"'}, []byte{'\\', '"'}, -1))
+	bb.B = appendJSONString(bb.B, bodyBytes)
 	bb.Write(msg8)
 
 	// do transfer pipe
